@@ -649,3 +649,8 @@ def run_c19(ctx):
     ctx.cov['exhaustive'] = True
     ctx.cov['explanation'] = ('every terminal state of the RunCmd.tla configurations in tlc_runs executed (%d); %d random cases judged by TLC'
                               % (n_exec, len(records)))
+    # extra module: what a PythonTask may do to shared state (PyTask.tla, observations only, see conf_pytask.py)
+    import conf_pytask
+    conf_pytask.run(ctx, tlc.workdir('c19pytask'))
+
+
